@@ -252,7 +252,7 @@ def execute(S, workdir):
             if not same(efile[r][f - 1], obs):
                 return ('anchor-read', {'mark_anchor': [text, occ], 'row': r - cur0, 'field': f, 'obs': obs}, info)
     par.reset_anchor()
-    numeric = act['n'] in ('TransferArray', 'Transfer2DArray') and \
+    numeric = S.get('api_read', True) and act['n'] in ('TransferArray', 'Transfer2DArray') and \
         all(not isinstance(efile[r][f - 1], str) for r, f in exp['written'])
     if numeric and act['n'] == 'TransferArray':
         r0 = exp['written'][0][0]
@@ -419,6 +419,9 @@ class Binder:
         S = {'sc': sc, 'lines': render(tmpl, delim, newline_at_end), 'delim': DELIMS[delim]['chars'],
              'sep': DELIMS[delim]['sep'], 'steps': steps, 'pre': pre, 'cand': cand,
              'overflow': overflow,
+             # the array readers (2-3 more pyparsing passes over lines already read field by field):
+             # every run in the thorough tier, every third run in the quick tier
+             'api_read': self.tier != 'quick' or (tid + cand_idx) % 3 == 0,
              'row_is_last': bool(written) and written[0][0] == len(tmpl) - 1,
              'exp': {'res': r['r'], 'cur': tst['cur'], 'anch': tst['anch'],
                      'file': [[c[1] for c in ln] for ln in conc], 'raw': raw, 'written': written,
